@@ -26,9 +26,10 @@
 //! 2. Two prescribed problems at the same OPT record (version != 0 together
 //!    with a non-root owner, or either with malformed options): the statements
 //!    do not order them; FORMERR and BADVERS are both accepted.
-//! 3. TSIG TTL field with the top bit set (0x80000000..): "wrong TTL" read
-//!    literally, zero under RFC 2181 §8 (how quandary's `Ttl` reads it); both
-//!    readings accepted. TTL 1..0x7fffffff must give FORMERR.
+//! 3. (Withdrawn.) A TSIG TTL field is not a TTL to be clamped: RFC 8945 §4.2
+//!    requires the field to be zero, so every non-zero value, 0x80000000 and
+//!    0xffffffff included, must give FORMERR at the TSIG record (this was a
+//!    genuine defect, repaired in /repo by cd55518).
 //! 4. Compression pointers in a QNAME / OPT owner / TSIG owner: "prior
 //!    occurrence" is read both as "before the pointer" and as "before the
 //!    chunk containing the pointer" (quandary's documented rule, C14); if the
@@ -192,13 +193,10 @@ fn delimit(msg: &[u8], start: usize) -> Option<RecPos> {
 #[derive(Clone, Copy)]
 struct Choices {
     rule: PtrRule,
-    /// RFC 2181 §8: read a TTL with the top bit set as zero (for the TSIG TTL).
-    ttl_msb_zero: bool,
 }
 
 struct Used {
     pointer: bool,
-    ttl_msb: bool,
 }
 
 enum TsigOutcome {
@@ -373,14 +371,8 @@ fn scan_one(msg: &[u8], cfg: &ScanCfg, ch: Choices, used: &mut Used) -> Scan {
                 return stop(s, FORMERR, "tsig:class");
             }
             if r.ttl != 0 {
-                if r.ttl > 0x7fff_ffff {
-                    used.ttl_msb = true;
-                    if !ch.ttl_msb_zero {
-                        return stop(s, FORMERR, "tsig:ttl(msb)");
-                    }
-                } else {
-                    return stop(s, FORMERR, "tsig:ttl");
-                }
+                // The raw 32-bit field: no RFC 2181 clamping for a pseudo-RR.
+                return stop(s, FORMERR, if r.ttl > 0x7fff_ffff { "tsig:ttl(msb)" } else { "tsig:ttl" });
             }
             let owner = wire::decode_name(msg, pos, ch.rule);
             match &owner {
@@ -420,27 +412,18 @@ fn scan_one(msg: &[u8], cfg: &ScanCfg, ch: Choices, used: &mut Used) -> Scan {
 }
 
 /// All readings of the request the statements allow (usually one). More than
-/// one arises only where a choice the statements leave open changed the
-/// outcome: the pointer rule ("prior occurrence": before the pointer, or
-/// before the chunk holding it) and a TSIG TTL with its top bit set (wrong
-/// TTL, or zero by RFC 2181 §8).
+/// one arises only where the pointer rule the statements leave open ("prior
+/// occurrence": before the pointer, or before the chunk holding it) changed
+/// the outcome.
 pub fn scan_all(msg: &[u8], cfg: &ScanCfg) -> Vec<Scan> {
-    let mut out: Vec<Scan> = Vec::new();
-    let mut used = Used { pointer: false, ttl_msb: false };
-    let first = scan_one(msg, cfg, Choices { rule: PtrRule::BeforeChunkStart, ttl_msb_zero: false }, &mut used);
-    out.push(first);
-    if used.pointer || used.ttl_msb {
-        for rule in [PtrRule::BeforeChunkStart, PtrRule::BeforePointer] {
-            for z in [false, true] {
-                if (rule == PtrRule::BeforePointer && !used.pointer) || (z && !used.ttl_msb) {
-                    continue;
-                }
-                let mut u = Used { pointer: false, ttl_msb: false };
-                let sc = scan_one(msg, cfg, Choices { rule, ttl_msb_zero: z }, &mut u);
-                if !out.contains(&sc) {
-                    out.push(sc);
-                }
-            }
+    let mut used = Used { pointer: false };
+    let first = scan_one(msg, cfg, Choices { rule: PtrRule::BeforeChunkStart }, &mut used);
+    let mut out = vec![first];
+    if used.pointer {
+        let mut u = Used { pointer: false };
+        let sc = scan_one(msg, cfg, Choices { rule: PtrRule::BeforePointer }, &mut u);
+        if !out.contains(&sc) {
+            out.push(sc);
         }
     }
     out
@@ -469,10 +452,7 @@ pub struct Obs {
 }
 
 pub fn observe(resp: &[u8]) -> Result<Obs, String> {
-    // Not `strict_pointers`: qvlib's strict mode rejects a pointer from the
-    // second name of an RDATA to a label of the first name of the same RDATA
-    // (SOA RNAME -> MNAME), which is legal; pointer hygiene is C13's business.
-    let m = wire::decode_message(resp, PtrRule::BeforeChunkStart, false)?;
+    let m = wire::decode_message(resp, PtrRule::BeforeChunkStart, true)?;
     let n_opt = m.all_rrs().filter(|r| r.typ == t::OPT).count();
     let n_opt_additional = m.additional.iter().filter(|r| r.typ == t::OPT).count();
     let n_tsig = m.all_rrs().filter(|r| r.typ == t::TSIG).count();
